@@ -71,6 +71,13 @@ fn justice_scenario(seed: u64, thorough: bool) -> Result<Outcome, String> {
 	let cfg = if anchors { test_default_channel_config() } else { test_legacy_channel_config() };
 	let reload = rng.below(4);   // 1: monitor + manager serialised and reloaded before the confirmation, 2: after it
 	let mut net = std::mem::ManuallyDrop::new(Net::new(2, vec![Some(cfg.clone()), Some(cfg)]));   // never dropped: skips Node::drop's end-of-test assertions (half-finished scenario by design)
+	{	// block-delivery style from the scenario seed (create_network draws it from a per-process RandomState otherwise)
+		use ConnectStyle::*;
+		let styles = [BestBlockFirst, BestBlockFirstSkippingBlocks, BestBlockFirstReorgsOnlyTip, TransactionsFirst, TransactionsFirstSkippingBlocks,
+			TransactionsDuplicativelyFirstSkippingBlocks, HighlyRedundantTransactionsFirstSkippingBlocks, TransactionsFirstReorgsOnlyTip, FullBlockViaListen,
+			ReplayedFullBlockViaListen, FullBlockDisconnectionsSkippingViaListen];
+		*net.nodes[0].connect_style.borrow_mut() = styles[rng.below(styles.len() as u64) as usize];
+	}
 	let c = net.open(0, 1, 1_000_000, 400_000_000);
 	let chan_id = net.chans[c].2;
 	let victim = 0usize; let cheater = 1usize;
@@ -257,7 +264,7 @@ fn main() {
 		"c06bump" => bump::run_bump(&mut rec, &mut rng, args.thorough, args.scale),
 		"c06justice" => {
 			silence_stdout();
-			let n = if args.thorough { 1500 } else { 120 } * args.scale;
+			let n = if args.thorough { 1200 } else { 120 } * args.scale;
 			for k in 0..n {
 				let s = rng.next();
 				match guarded(AssertUnwindSafe(|| justice_scenario(s, args.thorough))) {
